@@ -191,6 +191,39 @@ func (t *trio) send(ep string, lr lreq, acceptedStatus int) result {
 		if ep == "proxy" {
 			a = t.Prx
 		}
+		if strings.HasPrefix(target, "//") {
+			// net/http's client turns such a target into the absolute form "http://..."; the origin-form request line
+			// has to be written by hand
+			var hl []app.Hdr
+			if hdr["X-Verif-Chunked"] != "" && lr.Body != "" {
+				hl = append(hl, app.Hdr{Name: app.HdrChunked, Value: "1"})
+			}
+			delete(hdr, "X-Verif-Chunked")
+			names := make([]string, 0, len(hdr))
+			for k := range hdr {
+				names = append(names, k)
+			}
+			sort.Strings(names)
+			for _, k := range names {
+				for _, line := range strings.Split(hdr[k], "\n") {
+					hl = append(hl, app.Hdr{Name: k, Value: line})
+				}
+			}
+			rr, err := app.RawDo(a.Addr(), lr.Method, target, host, hl, []byte(lr.Body))
+			if err != nil {
+				res.Transport = err.Error()
+				res.Status = -1
+				break
+			}
+			res.Status, res.Body, res.RawHeader, res.Headers = rr.Status, string(rr.Body), rr.Header, map[string]string{}
+			for k, v := range rr.Header {
+				res.Headers[k] = strings.Join(v, ",")
+			}
+			if ep == "decision" {
+				res.Positive = rr.Status == acceptedStatus
+			}
+			break
+		}
 		var body io.Reader
 		if lr.Body != "" {
 			body = bytes.NewReader([]byte(lr.Body))
